@@ -1,8 +1,8 @@
 (** Property C03 — membership, containment, overlap and measure queries agree with
     the covered set.  Statements only. *)
-From Coq Require Import List NArith Lia.
+From Coq Require Import List NArith ZArith QArith Lia.
 From MOC.Base Require Import RangeSet.
-From MOC.Model Require Import Query QueryBS.
+From MOC.Model Require Import Qty Query QueryBS Repr Mom.
 Import ListNotations.
 Open Scope N_scope.
 
@@ -82,6 +82,33 @@ Example C03_nonvacuous_binary_search :
   intersects_range_bs l 20 30 = false /\ intersects_range_bs l 10 13 = true.
 Proof. repeat split; vm_compute; reflexivity. Qed.
 
+(** Multi-order map: the integer returned by the model is, exactly, Σ value × covered-fraction
+    (over the common denominator 2^S); a cell's fraction is 0 / 1 exactly when it is uncovered /
+    fully covered; the filter keeps exactly the entries of positive fraction; keys are decoded to
+    the cell they encode. *)
+Theorem C03_mom_weighted_sum_exact : forall S M mom, Forall (fun e : entry => fst (fst e) <= S) mom ->
+  (inject_Z (mom_num S M mom) == sumQ M mom * pow2Q S)%Q.
+Proof. exact mom_num_exact. Qed.
+
+Theorem C03_mom_fraction_zero : forall M sh i, Canon M ->
+  ((frac M sh i == 0)%Q <-> forall x, cell_lo sh i <= x < cell_hi sh i -> ~ cov M x).
+Proof. exact frac_zero_iff. Qed.
+
+Theorem C03_mom_fraction_one : forall M sh i, Canon M ->
+  ((frac M sh i == 1)%Q <-> forall x, cell_lo sh i <= x < cell_hi sh i -> cov M x).
+Proof. exact frac_one_iff. Qed.
+
+Theorem C03_mom_fraction_bounds : forall M sh i, Canon M -> (0 <= frac M sh i <= 1)%Q.
+Proof. exact frac_bounds. Qed.
+
+Theorem C03_mom_filter : forall M mom v w sh,
+  In (v, w, sh) (mom_filter M mom) <-> exists i, In (sh, i, v) mom /\ w = cell_w M sh i /\ w <> 0.
+Proof. exact mom_filter_spec. Qed.
+
+Theorem C03_mom_key_decoding : forall w d i v, i < 12 * 4 ^ d ->
+  decode_hpx w (uniq_hpx d i, v) = (shift Hpx w d, i, v).
+Proof. exact decode_hpx_roundtrip. Qed.
+
 Print Assumptions C03_contains_val.
 Print Assumptions C03_contains_range.
 Print Assumptions C03_intersects_range.
@@ -95,3 +122,9 @@ Print Assumptions C03_contains_val_binary_search_parity.
 Print Assumptions C03_contains_range_binary_search_parity.
 Print Assumptions C03_intersects_range_binary_search_parity.
 Print Assumptions C03_parity_rule.
+Print Assumptions C03_mom_weighted_sum_exact.
+Print Assumptions C03_mom_fraction_zero.
+Print Assumptions C03_mom_fraction_one.
+Print Assumptions C03_mom_fraction_bounds.
+Print Assumptions C03_mom_filter.
+Print Assumptions C03_mom_key_decoding.
